@@ -584,6 +584,28 @@ func forcedSorted(enc *json.Encoder, sc int) int {
 		r.spawn(3, func() { x.member(3, false) })
 		quiesce()
 		r.gate.ReleaseAll()
+	case 4, 5:
+		// two modifications that both change the LIGHTEST element: the first one (which also changes the heaviest) is held inside
+		// HeaviestElement's notification, the second one (a weight change / a Delete of another element) arrives meanwhile
+		x.member(3, true)
+		r.writeVar(x.w[0], 1, 30, false)
+		r.writeVar(x.w[1], 2, 20, false)
+		r.writeVar(x.w[2], 3, 10, false)
+		x.s.HeaviestElement().OnUpdate(func(_, _ int) { r.gate.Wait("hi-cb") })
+		r.gate.Hold("hi-cb")
+		r.note("thread 1 calls weight(3).Set(40) - element 3 becomes the heaviest, 2 the lightest - and is held inside HeaviestElement's notification")
+		r.spawn(1, func() { r.writeVar(x.w[2], 3, 40, false) })
+		quiesce()
+		r.gate.Free("hi-cb")
+		if sc == 4 {
+			r.note("thread 2 calls weight(2).Set(35): 1 becomes the lightest")
+			r.spawn(2, func() { r.writeVar(x.w[1], 2, 35, false) })
+		} else {
+			r.note("thread 2 calls SortedSet.Delete(2): 1 becomes the lightest")
+			r.spawn(2, func() { x.member(2, false) })
+		}
+		quiesce()
+		r.gate.ReleaseAll()
 	case 2:
 		r.gate.Hold("w-sub-3")
 		r.note("thread 1 calls SortedSet.Add(3) and is held when its OnUpdate on weight(3) returns; thread 2 then calls weight(3).Set(2)")
@@ -922,6 +944,8 @@ func derivedRun(args []string) int {
 		{"sorted-1", func() int { return forcedSorted(enc, 1) }},
 		{"sorted-2", func() int { return forcedSorted(enc, 2) }},
 		{"sorted-3", func() int { return forcedSorted(enc, 3) }},
+		{"sorted-4", func() int { return forcedSorted(enc, 4) }},
+		{"sorted-5", func() int { return forcedSorted(enc, 5) }},
 		{"waitgroup-0", func() int { return forcedWaitGroup(enc, 0) }},
 		{"waitgroup-1", func() int { return forcedWaitGroup(enc, 1) }},
 	} {
